@@ -11,6 +11,7 @@ from harness.adv_executor import AdvExecutor
 from harness.framework import cZ, cZlist, pmap
 
 LEVEL = "proof"
+TRANSLATED_KERNELS = ["calculate_projected_mem", "general_blockwise.projected_mem"]   # harness/translate.py: the projection general_blockwise gives an ordinary operation (inputs, declared extra, the chunk it WRITES) re-translated from /repo on every run
 RULE = ("operation instances of every family (elementwise fused/unfused, widening reductions, structured arg-reductions, mean, "
         "cumulative ops, matmul/outer/tensordot, rechunk, concat/stack/unstack/repeat/flip/roll/permute/reshape/broadcast/index/pad, "
         "map_blocks) on chunks of >= 200 kB (square, skinny, uneven last chunk), dtypes float64/float32/int64/int32, compressor none / "
@@ -58,6 +59,9 @@ def op_instances():
         "matmul": lambda xp, c, a, b: xp.matmul(a, xp.permute_dims(b, (1, 0))),
         "permute": lambda xp, c, a, b: xp.permute_dims(a, (1, 0)),
         "rechunk": lambda xp, c, a, b: a.rechunk((a.chunksize[0] // 2 or 1, a.chunksize[1] * 2)),
+        "rechunk-tall": lambda xp, c, a, b: a.rechunk((min(a.shape[0], a.chunksize[0] * 4), max(a.chunksize[1] // 4, 1))),
+        "rechunk-wide": lambda xp, c, a, b: a.rechunk((max(a.chunksize[0] // 4, 1), min(a.shape[1], a.chunksize[1] * 4))),
+        "store-finer-grid": lambda xp, c, a, b: _store_finer(xp, c, a),
         "concat": lambda xp, c, a, b: xp.concat([a, b], axis=0),
         "stack": lambda xp, c, a, b: xp.stack([a, b], axis=0),
         "unstack": lambda xp, c, a, b: xp.unstack(xp.stack([a, b, a], axis=0), axis=0)[1],
@@ -106,6 +110,16 @@ def _left_fold(xp, terms):
 
 def _twice(x):
     return x * 2
+
+
+def _store_finer(xp, cubed, a):
+    """lazy store of a computed array into an existing Zarr array whose chunk grid divides the source chunks: no rechunk is inserted,
+    every task writes one source chunk across several stored chunks"""
+    import zarr
+
+    tchunks = tuple(max(c // 2, 1) for c in a.chunksize)
+    z = zarr.create_array(zarr.storage.MemoryStore(), shape=a.shape, dtype=a.dtype, chunks=tchunks, compressors=None)
+    return cubed.to_zarr(xp.negative(a), z, compute=False)
 
 
 class Meter:
@@ -169,6 +183,9 @@ CORNERS = [
     ("left-fold", (720, 360), (360, 360), "float64"), ("fused-chain", (720, 360), (360, 360), "float64"),
     ("unstack-many", (400, 400), (200, 400), "float64"), ("matmul", (3000, 16), (1500, 8), "float64"), ("matmul", (4000, 16), (2000, 8), "uint8"),
     ("cumulative_sum", (8, 300000), (1, 300000), "float64"), ("nansum", (300000, 8), (300000, 1), "float64"),
+    # write chunk larger than the stored chunk grid of the target (rechunk stages, store into a finer grid)
+    ("rechunk-tall", (2000, 500), (500, 500), "float64"), ("rechunk-wide", (600, 2400), (600, 600), "float64"), ("rechunk-tall", (4000, 256), (1000, 256), "float32"),
+    ("store-finer-grid", (1000, 1000), (500, 500), "float64"), ("store-finer-grid", (1200, 600), (600, 600), "float32"),
 ]
 
 
